@@ -1,0 +1,61 @@
+// Copyright ©2026 The Gonum Authors. All rights reserved.
+// Use of this source code is governed by a BSD-style
+// license that can be found in the LICENSE file.
+
+//go:build verif
+
+package gonum
+
+// Machine-checked contracts for the BLAS routines of this package
+// (verification hook, build tag verif; this file contains comments only).
+// The contract language and the checker are described in /verif/DESIGN.md.
+//
+// valid is the documented argument contract of the routine (written from the
+// BLAS definition and the routine's doc comment, not from its code); a routine
+// with "panics iff !valid, before-writes" must panic explicitly, before any
+// store, exactly when valid is false, and must not fault otherwise. writes is
+// the set of cells the routine may store to; everything else is unchanged.
+
+//@ spec vec(s []float64, n int, inc int) bool = n == 0 || len(s) > (n-1)*abs(inc)
+//@ spec start(n int, inc int) int = ite(inc < 0, -(n-1)*inc, 0)
+
+// ---- Level 1 ------------------------------------------------------------------
+
+// The documentation of Dnrm2, Dasum, Idamax and Dscal says both "panics if
+// n < 0" and "returns 0 / does nothing if incX < 0"; which wins when both
+// hold is not documented and the routines differ, so that corner is excluded.
+
+//@ func Implementation.Dnrm2 Implementation.Snrm2 Implementation.Dasum Implementation.Sasum props: C01(frame) C07(safety)
+//@ requires !(n < 0 && incX < 0)
+//@ valid incX != 0 && n >= 0 && (incX < 0 || vec(x, n, incX))
+//@ panics iff !valid, before-writes
+//@ writes nothing
+
+//@ func Implementation.Idamax Implementation.Isamax props: C01(frame) C07(safety)
+//@ requires !(n < 0 && incX < 0)
+//@ valid incX != 0 && n >= 0 && (incX < 0 || vec(x, n, incX))
+//@ panics iff !valid, before-writes
+//@ writes nothing
+//@ ensures incX < 0 || n == 0 ==> result == -1
+//@ ensures incX > 0 && n > 0 ==> 0 <= result && result < n
+
+//@ func Implementation.Dswap Implementation.Sswap Implementation.Drot Implementation.Srot Implementation.Drotm Implementation.Srotm props: C01(frame) C07(safety)
+//@ valid incX != 0 && incY != 0 && n >= 0 && vec(x, n, incX) && vec(y, n, incY)
+//@ panics iff !valid, before-writes
+//@ writes x[start(n,incX)+k*incX] for k in 0..n ; y[start(n,incY)+k*incY] for k in 0..n
+
+//@ func Implementation.Dcopy Implementation.Scopy Implementation.Daxpy Implementation.Saxpy props: C01(frame) C07(safety)
+//@ valid incX != 0 && incY != 0 && n >= 0 && vec(x, n, incX) && vec(y, n, incY)
+//@ panics iff !valid, before-writes
+//@ writes y[start(n,incY)+k*incY] for k in 0..n
+
+//@ func Implementation.Ddot Implementation.Sdot Implementation.Dsdot Implementation.Sdsdot props: C01(frame) C07(safety)
+//@ valid incX != 0 && incY != 0 && n >= 0 && vec(x, n, incX) && vec(y, n, incY)
+//@ panics iff !valid, before-writes
+//@ writes nothing
+
+//@ func Implementation.Dscal Implementation.Sscal props: C01(frame) C07(safety)
+//@ requires !(n < 0 && incX < 0)
+//@ valid incX != 0 && n >= 0 && (incX < 0 || vec(x, n, incX))
+//@ panics iff !valid, before-writes
+//@ writes x[k*incX] for k in 0..n if incX > 0
